@@ -1,6 +1,7 @@
 # C05 - UPDATE emits every record once, changing only assigned fields of matching rows.
 # Model: Engine.v (process_update, apply_assigns, NU); theorems: Props/C05.v.
 import itertools
+import importlib
 import lib
 import qgen
 import enginecheck as ec
@@ -71,7 +72,11 @@ def run(ctx):
     exp, got = ec.evaluate(ctx, cases, THEOREM)
     for c, e, g_ in list(zip(cases, exp, got))[:3]:
         ctx.sample({'query': c['q'], 'A': c['A'], 'B': c['B'], 'model': e, 'implementation': {k2: g_.get(k2) for k2 in ('events', 'pulls', 'error')} if isinstance(g_, dict) else g_})
+    # rbql-js/rbql.js is an anchor of this property too: the JavaScript leg runs language-neutral queries of this shape through rbql-js
+    importlib.import_module('props.c19').js_leg(ctx, THEOREM, 'update', 600 if ctx.tier == 'quick' else 60000)
 
 
 def replay(ctx, case):
+    if case.get('impl') == 'js':
+        return importlib.import_module('props.c19').replay(ctx, case)
     ec.replay(ctx, case, THEOREM)
